@@ -18,6 +18,7 @@ pub struct Report {
     pub skipped_unsupported: u64,
     pub pre_failed: u64,
     pub per_kind: HashMap<String, u64>,
+    pub per_kind_hostfree: HashMap<String, u64>,
     pub side_obs: u64,
     pub drift_rows: u64,
     pub no_state_row: u64,
@@ -41,6 +42,9 @@ fn nonzero_host(v: &Value) -> bool {
         Value::Array(a) => a.iter().any(nonzero_host),
         _ => false,
     }
+}
+pub fn nonzero_host_pub(v: &Value) -> bool {
+    nonzero_host(v)
 }
 fn tree_nonzero_host(t: &Value) -> bool {
     let a = t.as_array().unwrap();
@@ -276,6 +280,9 @@ pub fn replay_rows<P: PT, C: Coll<P>>(
             // keep the first few of every (kind, action): one property's disagreements must not crowd
             // out another's
             let slot = format!("{}/{}", kind, row["e"]["a"].as_str().unwrap_or("?"));
+            if !(nonzero_host(&row["h"]) || nonzero_host(&row["e"])) {
+                *rep.per_kind_hostfree.entry(slot.clone()).or_default() += 1;
+            }
             let n = rep.per_kind.entry(slot).or_default();
             *n += 1;
             if *n <= 4 && rep.mismatches.len() < max_mismatch * 8 {
@@ -290,7 +297,7 @@ pub fn report_json(rep: &Report, ptype: &str, coll: &str) -> Value {
     json!({
         "ptype": ptype, "coll": coll,
         "rows": rep.rows, "executed": rep.executed, "skipped_host": rep.skipped_host,
-        "skipped_unsupported": rep.skipped_unsupported, "pre_failed": rep.pre_failed, "side_obs": rep.side_obs, "drift_rows": rep.drift_rows, "no_state_row": rep.no_state_row,
+        "skipped_unsupported": rep.skipped_unsupported, "pre_failed": rep.pre_failed, "side_obs": rep.side_obs, "per_kind": rep.per_kind, "per_kind_hostfree": rep.per_kind_hostfree, "drift_rows": rep.drift_rows, "no_state_row": rep.no_state_row,
         "states": rep.states, "per_action": rep.per_action,
         "mismatch_count": rep.mismatch_count, "mismatches": rep.mismatches, "samples": rep.samples,
     })
